@@ -207,6 +207,20 @@ def run_kind(ctx, f, label, kind, tname, P, T, names):
             agg.violation(f"dumps-differs:{kind}",
                           "re-serialising the untouched parse does not reproduce the first pickle's bytes",
                           witness(label, kind, tname, P, T, dumps_hex=out[:200].hex(), dumps_len=len(out)))
+        # other ways to get at the bytes: opcode iteration, dumps_partial
+        try:
+            it = b"".join(op.data for op in p.opcodes)
+            n = len(p)
+            k = n // 2
+            part = p.dumps_partial(0, k) + p.dumps_partial(k, n)
+            agg.count("partial_dump_checks")
+            if it != P or part != P or p.nb_opcodes != n:
+                agg.violation(f"partial-dump-differs:{kind}",
+                              "opcodes() / dumps_partial(0,k)+dumps_partial(k,n) do not reproduce the first pickle's bytes",
+                              witness(label, kind, tname, P, T, k=k, n=n))
+        except Exception as e:
+            agg.violation(f"partial-dump-raises:{type(e).__name__}", f"dumps_partial / opcodes raised: {str(e)[:100]}",
+                          witness(label, kind, tname, P, T))
         # the streaming twin of dumps(): same bytes, into an in-memory and into a real file object
         try:
             buf = io.BytesIO()
